@@ -16,6 +16,7 @@ func init() {
 			"C03's decoder rules (stream read API, fault exits) are re-checked here: a malformed frame at any position is an error",
 			"PF-NILCLOSE: deferred cleanups of values returned with an error are registered under err == nil",
 			"PV-WHOLE: every successful evaluation returns a typed response",
+			"PV-PAIR buildLineFilter returns a freshly built filter or an error (no silent no-op for an invalid stage)",
 		},
 		NotDecided: []string{"that Close of the Docker client's body releases the connection", "double close", "context cancellation"},
 		Rules: func(r *Run) {
@@ -30,6 +31,7 @@ func init() {
 			ruleErrSticky(r, []string{dockerlogPkg, enginePkg, metricPkg, itersPkg, lexerPkg}, 1)
 			rulePFDeferNil(r, []string{enginePkg, metricPkg, dockerlogPkg, cmdPkg})
 			ruleResultKindSet(r)
+			ruleLineFilterBuilder(r) // an invalid stage is an error, not a no-op
 		},
 	})
 }
